@@ -79,6 +79,26 @@ func (e *Engine) verifyFunc(fn *ssa.Function, c *Contract) (fres *FuncResult) {
 			x.modelLbl[v.Len] = "len(" + p.Name() + ")"
 		}
 	}
+	// a function literal under contract: every captured variable lives in a heap cell of its own (SSA free variables
+	// are pointers to them); the cells exist at entry, are pairwise distinct, and hold arbitrary values. Contracts name
+	// the captured variables by their source names (their CURRENT content, old(v) their content at entry).
+	var binds []*Val
+	for _, fv := range fn.FreeVars {
+		pt, ok := fv.Type().(*types.Pointer)
+		if !ok || x.sortOf(pt.Elem()) == "" {
+			x.refuse("captured variable %s of %s has a composite type the engine does not model as a cell", fv.Name(), fn)
+		}
+		v := x.fresh(fv.Type(), "fv_"+fv.Name(), "true", st)
+		x.fact(sNot(sEq(v.T, "0")))
+		x.allocatedFact(v, st)
+		for _, o := range binds {
+			if types.Identical(o.GT, v.GT) {
+				x.fact(sNot(sEq(o.T, v.T)))
+			}
+		}
+		binds = append(binds, v)
+		x.fvPtr[fv.Name()] = v
+	}
 	env := &SEnv{x: x, vars: map[string]*Val{}, cur: st, old: st, fn: fn}
 	if fn.Pkg != nil {
 		env.pkg = fn.Pkg.Pkg
@@ -129,7 +149,7 @@ func (e *Engine) verifyFunc(fn *ssa.Function, c *Contract) (fres *FuncResult) {
 		x.externs[fmt.Sprintf("body of %s not executed symbolically (%s): structural obligations only", fnKeyShort(fn), c.StructuralOnly)] = true
 		return fres
 	}
-	_, _, rr := x.runFunc(fn, args, nil, st, "true", 0, true)
+	_, _, rr := x.runFunc(fn, args, binds, st, "true", 0, true)
 	if c != nil {
 		o := x.addObl("cover:exit-reachable", "", "", "true", rr)
 		o.Expect = "sat"
